@@ -503,6 +503,9 @@ func (e *Engine) Explore(task func(ex *Exec)) *Report {
 // ExploreWith explores with the given solver and number of workers for this one task.
 func (e *Engine) ExploreWith(task func(ex *Exec), solverKind string, workers int) *Report {
 	t0 := time.Now()
+	if s := os.Getenv("GOSX_MAXPATHS"); s != "" {
+		fmt.Sscan(s, &e.MaxPaths)
+	}
 	rep := NewReport()
 	var mu sync.Mutex
 	queue := []sibling{{}}
@@ -543,6 +546,9 @@ func (e *Engine) ExploreWith(task func(ex *Exec), solverKind string, workers int
 				mu.Lock()
 				active--
 				queue = append(queue, sibs...)
+				if pg := os.Getenv("GOSX_PROGRESS"); pg != "" && (pg == "2" || rep.Paths%500 == 0) {
+					fmt.Fprintf(os.Stderr, "progress: paths=%d queue=%d failures=%d elapsed=%v\n", rep.Paths, len(queue), len(rep.Failures), time.Since(t0))
+				}
 				rep.ByEnd[res.End]++
 				if res.End != "ok" && res.Msg != "" {
 					rep.EndMsgs[res.End+": "+res.Msg]++
